@@ -33,6 +33,9 @@ enum Ev {
     Thresholds,
 }
 
+/// scripted start states that were not reached (bit i = start state i); a machinery error unless a violation explains it
+static START_MISSED: std::sync::atomic::AtomicU64 = std::sync::atomic::AtomicU64::new(0);
+
 /// decisions at which a latch was released with the guard on (vacuity guard for the rejoin path)
 static RELEASES: std::sync::atomic::AtomicU64 = std::sync::atomic::AtomicU64::new(0);
 
@@ -244,7 +247,15 @@ impl Model for M {
     }
     fn init(&self, w: &mut (), i: usize) -> St {
         set_now(T0);
-        let links: Vec<SrtlaConnection> = (0..self.n).map(|l| live_conn(l, T0)).collect();
+        let links: Vec<SrtlaConnection> = (0..self.n)
+            .map(|l| {
+                let mut c = live_conn(l, T0);
+                // housekeeping's stamps are set, so that a decision that touches them shows
+                c.last_keepalive_sent = Some(T0 - 300);
+                c.last_sent = Some(T0 - 100);
+                c
+            })
+            .collect();
         let mut s = St {
             now: T0,
             twin: links.clone(),
@@ -270,14 +281,15 @@ impl Model for M {
         for ev in script {
             if let Err(f) = self.step_ev(w, &mut s, ev) { engine::prefix_fail(f); }
         }
-        if i == 4 {
-            assert!(s.links[0].verif_private().stall_gate_events >= 4, "scripted history did not latch four times");
-        }
-        if i == 1 || i == 3 || i == 4 {
-            assert!(s.links[0].stall_latched(), "scripted history did not latch");
-        }
-        if i == 2 {
-            assert!(s.links[0].verif_private().silence_pulled, "scripted history did not pull");
+        let reached = match i {
+            4 => s.links[0].verif_private().stall_gate_events >= 4 && s.links[0].stall_latched(),
+            1 | 3 => s.links[0].stall_latched(),
+            2 => s.links[0].verif_private().silence_pulled,
+            _ => true,
+        };
+        if !reached {
+            // not a verdict of this property by itself: the exploration goes on from the state the script did reach
+            START_MISSED.fetch_or(1 << i, std::sync::atomic::Ordering::Relaxed);
         }
         s
     }
@@ -362,6 +374,10 @@ pub fn run(tier: Tier) -> Report {
             &format!("alphabet[{label}]"),
             json!((0..m.n_events()).map(|e| m.event_name(e)).collect::<Vec<_>>()),
         );
+    }
+    let missed = START_MISSED.load(std::sync::atomic::Ordering::Relaxed);
+    if missed != 0 {
+        rep.machinery_errors.push(format!("scripted start state(s) not reached (bit mask {missed:#b}): the histories from them were explored from whatever state the script did reach"));
     }
     let rel = RELEASES.load(std::sync::atomic::Ordering::Relaxed);
     rep.set("latch_releases_observed", json!(rel));
